@@ -14,6 +14,7 @@ class Calls:
         self.eigsh = []     # dict(args, kwargs, result)
         self.eig = []       # (mats, evals, evecs)
         self.minimize = []  # dict(fun, x0, result)
+        self.curv_tria = [] # (u1, u2, c1, c2) returned by TriaMesh.curvature_tria
 
 
 @contextlib.contextmanager
@@ -52,6 +53,14 @@ def capture():
         return r
 
     spla.splu, spla.spsolve, spla.eigsh, np.linalg.eig = my_splu, my_spsolve, my_eigsh, my_eig
+    from lapy import TriaMesh as _TM
+    real_ct = _TM.curvature_tria
+
+    def my_ct(self, *args, **kw):
+        r = real_ct(self, *args, **kw)
+        calls.curv_tria.append(tuple(np.array(x, copy=True) for x in r))
+        return r
+    _TM.curvature_tria = my_ct
     conf = None
     try:
         import lapy.conformal as conf
@@ -68,5 +77,6 @@ def capture():
         yield calls
     finally:
         spla.splu, spla.spsolve, spla.eigsh, np.linalg.eig = real_splu, real_spsolve, real_eigsh, real_eig
+        _TM.curvature_tria = real_ct
         if conf is not None:
             conf.minimize = real_min
